@@ -176,9 +176,9 @@ func requestMutations(fn *ssa.Function) []requestMutation {
 func runC02(c *Ctx) {
 	p := c.Progs["mod"]
 	c.Rule("C02.H", "hop-by-hop tables exact; request-side deletion guarded by the predicate on the same name", 2)
-	c.Rule("C02.W", "who-may-write the forwarded request: every mutation site is in the frozen table; plain single-host reverse proxy", 12)
+	c.Rule("C02.W", "who-may-write the forwarded request: every mutation site is in the frozen table; plain single-host reverse proxy; the replayed request has no peer address", 13)
 	c.Rule("C02.I", "identity of the forwarded request object, private parse reader, reply body lifetime", 6)
-	c.Rule("C02.T", "no non-transparent handler in the pass-through chain", 5)
+	c.Rule("C02.T", "no non-transparent handler in the pass-through chain", 6)
 
 	ruleHopTables(c, p, "C02.H")
 	sv := c.need(p, "C02.H", "server.(*proxy).ServeHTTP")
@@ -493,6 +493,8 @@ func runC02(c *Ctx) {
 		}
 	}
 
+	ruleReplayedRequestHasNoPeer(c, p, "C02.W")
+
 	// ---- C02.T
 	ruleTransparentChain(c, p, "C02.T")
 	// the shim dispatch: mux only behind the prefix test
@@ -540,6 +542,18 @@ func ruleTransparentChain(c *Ctx, p *Prog, rule string) {
 			}
 		}
 		c.Check(rule, name+":transparent", p, f.Pos(), bad == "", "no ServeMux/StripPrefix/TimeoutHandler/… on the pass-through route built here", "the pass-through chain built in "+name+" contains "+bad+": http.ServeMux answers 301 itself for any path that is not clean (/a//b, /a/../b) and strips ports for matching; http.TimeoutHandler buffers the whole response until the handler returns; the request/response no longer passes as sent")
+	}
+	// the stand-alone proxy: whatever its start-up code wraps around the proxy handler sees
+	// every client request before it is stored (http.AllowQuerySemicolons rewrites ';' in the
+	// query of the request it passes on; a mux cleans paths)
+	if m := c.need(p, rule, "server.main"); m != nil {
+		bad := ""
+		for _, fn := range p.AllFuncsIn("server") {
+			for _, call := range Calls(fn, nonTransparent...) {
+				bad = CalleeName(CallOf(call)) + " at " + p.Pos(call.Pos())
+			}
+		}
+		c.Check(rule, "server.main:transparent", p, m.Pos(), bad == "", "nothing in the stand-alone proxy wraps its handler in a ServeMux/StripPrefix/AllowQuerySemicolons/…", "the stand-alone proxy's start-up code uses "+bad+": the request that is stored for the agent is no longer the one the client sent (rewritten query, cleaned path, buffered response)")
 	}
 }
 
